@@ -416,5 +416,45 @@ inline bool run_batch(const std::string& path, const std::function<void(Trace&)>
 	return ok;
 }
 
+
+// capture what the library prints on stdout/stderr during a call (warnings are part of some properties)
+struct Capture
+{
+	int saved_out, saved_err;
+	FILE* tmp;
+	Capture()
+	{
+		std::fflush(nullptr);
+		std::cout.flush();
+		std::cerr.flush();
+		saved_out = dup(1);
+		saved_err = dup(2);
+		tmp		  = std::tmpfile();
+		dup2(fileno(tmp), 1);
+		dup2(fileno(tmp), 2);
+	}
+	std::string done()
+	{
+		std::fflush(nullptr);
+		std::cout.flush();
+		std::cerr.flush();
+		dup2(saved_out, 1);
+		dup2(saved_err, 2);
+		close(saved_out);
+		close(saved_err);
+		std::string s;
+		long n = std::ftell(tmp);
+		(void)n;
+		std::rewind(tmp);
+		char buf[4096];
+		size_t k;
+		while((k = std::fread(buf, 1, sizeof buf, tmp)) > 0)
+			s.append(buf, k);
+		std::fclose(tmp);
+		tmp = nullptr;
+		return s;
+	}
+};
+
 }	// namespace vf
 #endif
